@@ -1,4 +1,6 @@
 """C04 -- a composed message parses back to the same message through the library's own opposite-side state machine."""
+import hashlib
+
 from harness import composer_rec as cr
 from harness import parser_rec
 from harness.coqfmt import B, L, N, X
@@ -6,19 +8,31 @@ from harness.coqfmt import B, L, N, X
 ID = 'C04'
 PROPS = 'Props/C04.v'
 TABLES = ['HeadersT', 'ParserT', 'StartLineT', 'ComposerT']
-COQ_HEADER = 'From Coq Require Import ZArith.\nFrom Httoop Require Import Model.Composer Model.Parser Corr.C05 Corr.Parser Corr.C04.'
-COQ_CHECK = 'check'
+# a case of the correspondence is either the round trip of Corr/C04.v (composer model, then the parser model on the MODEL's octets in one call) or a
+# run of the parser model of Corr/Parser.v on the real composer's octets cut into several calls / several messages on one machine
+COQ_HEADER = ('From Coq Require Import ZArith.\nFrom Httoop Require Import Model.Composer Model.Parser Corr.C05 Corr.Parser Corr.C04.\n'
+	'Inductive xcase := XR (c : Corr.C04.case) | XP (c : Corr.Parser.case).\n'
+	'Definition xcheck (c : xcase) : bool := match c with XR c => Corr.C04.check c | XP c => Corr.Parser.check c end.')
+COQ_CHECK = 'xcheck'
 CORR_VO = 'Corr/C04.vo'
 RULE = ('T2: generated API-level messages (method tokens, Unicode path segments and query pairs, statuses with and without reason, versions 1.0/1.1, Latin-1 header '
 	'values, bodies as bytes/bytearray/text/list/tuple/generator/BytesIO/real temp file, sizes 0 .. 3 blocks, chunked on/off, coding none/gzip/deflate) are prepared and '
 	'composed by the real composer and parsed in one call by the real opposite state machine (server for requests, client for responses). Inside Coq (vm_compute) the composer '
 	'model must produce the same octets and the parser model, fed the MODEL\'s octets with the callee tables recorded from the real parse (T3), must make the same delivery. '
 	'Oracle (independent of both models): exactly one message, nothing left over, same method / path segments / query pairs / version / status / reason, every caller-set header '
-	'field that the composer does not manage, body equal to the content supplied. non-trivial = distinct (kind, outcome, source type, framing, coding, size class, version) classes')
+	'field that the composer does not manage, body equal to the content supplied. The same single delivery is required of every other way the octets can reach the opposite '
+	'machine: (a) fed octet by octet and with every two-call cut (wires over 700 octets: every cut within 3 octets of a CR or LF plus the first 200, the last 40 and a stride sample of the other positions, and '
+	'one many-call run with single octets around every CR / LF); (b) on ONE machine after a chunked and after a Content-Length message composed by the same composer, '
+	'twice in a row, between messages of the other framing, pipelined in one call and octet by octet: each message delivered exactly as when parsed alone on a fresh machine. '
+	'A share of these runs (octet by octet: wires up to 200 octets, one in 4; chunked / case / Content-Length on one machine: wires up to 1200 octets, one in 3) is also replayed '
+	'by the parser model inside Coq on the real octets (CParse of Corr/Parser.v). '
+	'non-trivial = distinct (kind, outcome, source type, framing, coding, size class, version) classes')
 EXHAUSTIVE = {'quick': False, 'thorough': False}
 TRUSTED = [
 	'harness/tables/composer.py, headers.py, parser.py, startline.py (T1)',
 	'harness/composer_rec.py and harness/parser_rec.py (T2/T3: public API only; frozen clock; recording wrappers for the coders, Element.split, start-line parser, header hooks, Body.decompress, RFC 2047 decoding, Trailer parsing)',
+	'the fragmented and sequential feeds of the oracle run in forked worker processes (harness/props/C04.py: Pending / _feeds; results looked at when coq_case is called); the case files define the two-constructor '
+	'wrapper xcase / xcheck that dispatches to Corr.C04.check and Corr.Parser.check',
 	'callees of both models are parameters of the theorems: content coders and decoders (zlib/gzip), URI composition and parsing of the request target (C10), header-semantics hooks of on_headers_complete, RFC 2047 decoding',
 ]
 ASSUMPTIONS = [
@@ -132,7 +146,7 @@ def rmessage(rng, tier):
 
 
 def gen_cases(rng, tier):
-	cases = []
+	cases = [primer_case(k, ch) for k in ('req', 'resp') for ch in (True, False)]   # the messages sent before / after every case on one machine
 	big = tier == 'thorough'
 	# every source type x framing x coding x kind, small ASCII body
 	for t in ('bytes', 'bytearray', 'text', 'list', 'tuple', 'gen', 'bytesio', 'file'):
@@ -178,6 +192,261 @@ def _ops(c):
 	return ([['ch', True]] if c.get('chunked') else []) + [['p', 1790000000], ['c']]
 
 
+# ---------------------------------------------------------------- how the composed octets reach the opposite machine
+# (a) one composed message, every way of cutting it into parse() calls must give the delivery of the single call;
+# (b) several composed messages one after the other on ONE opposite-side machine: each delivered exactly as when parsed alone.
+PER_OCTET_MAX = 2500    # wires up to this length are also fed octet by octet ...
+TWO_CUT_ALL_MAX = 700   # ... and up to this length with every two-call cut
+NEAR = 3                # longer wires: every cut position within NEAR octets of a CR or LF, plus a stride sample of the rest
+BLOCK = 509             # long wires, one run of many calls: single octets near every CR / LF, blocks of at most BLOCK octets elsewhere
+
+
+def _near_line_ends(data):
+	near = set()
+	for i, b in enumerate(data):
+		if b in (13, 10):
+			near.update(range(max(1, i - NEAR), min(len(data) - 1, i + 1 + NEAR) + 1))
+	return near
+
+
+def two_call_cuts(data):
+	n = len(data)
+	if n <= TWO_CUT_ALL_MAX:
+		return list(range(1, n))
+	# every position within NEAR of a CR or LF (all of head, chunk framing and trailer; in a body full of CR / LF octets nearly every position),
+	# the first 200 and the last 40 positions, and about a hundred evenly spread over the rest
+	return sorted(_near_line_ends(data) | set(range(1, 200)) | set(range(n - 40, n)) | set(range(1, n, n // 97)))
+
+
+def multi_cuts(data):
+	"""cut positions of the one many-call run: every octet on its own for a short wire; for a long one every octet within NEAR of a CR or LF on its own"""
+	n = len(data)
+	if n <= PER_OCTET_MAX:
+		return list(range(1, n))
+	near = _near_line_ends(data)
+	cuts, last = [], 0
+	for i in range(1, n):
+		if i in near or (i - 1) in near or i - last >= BLOCK:
+			cuts.append(i)
+			last = i
+	return cuts
+
+
+def _frags(data, cuts):
+	return [data[a:b] for a, b in zip([0] + list(cuts), list(cuts) + [len(data)])]
+
+
+def delivery(run):
+	"""what a run delivered, whatever the cutting: the messages in order, the first error, and the idle flag / leftover octets at the end"""
+	msgs, err = [], None
+	for call in run['calls']:
+		if 'err' in call:
+			err = call['err']
+			break
+		msgs.extend(call['msgs'])
+	fin = run.get('final')
+	return {'msgs': msgs, 'err': err, 'started': fin['started'] if fin else None, 'left': fin['buf'] if fin and not fin['started'] else None}
+
+
+def _short(d):
+	return {'n_msgs': len(d['msgs']), 'err': d['err'], 'started': d['started'], 'left': d['left'] if d['left'] is None else len(d['left']) // 2,
+		'bodies': [len(m['body']) // 2 for m in d['msgs']], 'lines': [bytes.fromhex(m['line'] or '').decode('latin-1') for m in d['msgs']]}
+
+
+_PRIMERS = {}
+PRIMER_BODY = {'t': 'list', 'items': [b'primer '.hex(), b'\r\n0\r\n\r\n'.hex(), b'data'.hex()], 'strs': [False, False, False]}
+
+
+def primer_case(k, chunked):
+	c = {'k': k, 'version': [1, 1], 'hdrs': [['X-Primer', b'p'.hex()]], 'body': PRIMER_BODY, 'coding': None, 'chunked': chunked}
+	if k == 'req':
+		c.update(method='PUT', segs=['', 'primer'], query=None, host='primer.example')
+	else:
+		c.update(status=203, reason=None, rmethod='GET')
+	return c
+
+
+def primer(k, chunked):
+	"""a composed message of the same side as the case, sent before / after it on the same connection: (octets, delivery when parsed alone);
+	the four primers are cases of their own (gen_cases), so what they deliver alone is judged by the oracle like any other case"""
+	key = (k, chunked)
+	if key not in _PRIMERS:
+		c = primer_case(k, chunked)
+		c['ops'] = _ops(c)
+		c['trailer'] = []
+		o = cr.run_ops(c)
+		data = bytes.fromhex(o['ops'][-1]['out'])
+		_PRIMERS[key] = (data, delivery(parser_rec.run('server' if k == 'req' else 'client', [data])))
+	return _PRIMERS[key]
+
+
+def _feeds(args):
+	"""worker: each feed on a fresh machine.  `multi`: (position, label, octets, cut positions, expected delivery); `two`: (octets, cut positions,
+	expected delivery), one two-call run per position.  Returns the feeds that did not deliver what is expected (the first few) and their number"""
+	kind, multi, two = args
+	dev, n = [], 0
+
+	def one(idx, label, data, cuts, exp):
+		run = parser_rec.run(kind, _frags(data, cuts))
+		got = delivery(run)
+		if got != exp:
+			if len(dev) < 4:
+				dev.append({'how': label(), 'idx': idx, 'calls': len(run['calls']), 'want': _short(exp), 'got': _short(got)})
+			return 1
+		return 0
+	for idx, label, data, cuts, exp in multi:
+		n += one(idx, lambda: label, data, cuts, exp)
+	if two:
+		data, cuts, exp = two
+		for cut in cuts:
+			n += one(100 + cut, lambda: 'fed in two calls, cut after octet %d of %d (... %r | %r ...)' % (cut, len(data), data[max(0, cut - 6):cut], data[cut:cut + 6]),
+				data, [cut], exp)
+	return dev, n
+
+
+_POOL = []
+PART = 160              # two-call cuts per task of the worker pool
+MAX_OUTSTANDING = 400   # cases whose feeds are still running or queued, before this process waits for the oldest
+WORKER_TIMEOUT = 900
+
+
+def _pool():
+	"""the feeds are independent runs on fresh machines: done by worker processes (forked once, before any thread exists);
+	VERIF_JOBS=1 or a platform without fork: everything in this process"""
+	if not _POOL:
+		_POOL.append(None)
+		try:
+			import multiprocessing
+			import os
+			n = min(int(os.environ.get('VERIF_JOBS', '16')), os.cpu_count() or 1)
+			if n > 1:
+				_POOL[0] = multiprocessing.get_context('fork').Pool(n)
+		except Exception:
+			_POOL[0] = None
+	return _POOL[0]
+
+
+_OUTSTANDING = []
+
+
+class Pending(object):
+	"""the feeds of one case, running in the worker processes while this process composes the next cases; result() waits for them"""
+
+	def __init__(self, kind, multi, data, cuts, want):
+		multi = [(i,) + tuple(f) for i, f in enumerate(multi)]
+		tasks = [(kind, multi, None)] + [(kind, [], (data, cuts[i:i + PART], want)) for i in range(0, len(cuts), PART)]
+		pool = _pool()
+		self.done = None
+		if pool is None:
+			self.handles = []
+			self.collect([_feeds(t) for t in tasks])
+		else:
+			self.handles = [pool.apply_async(_feeds, (t,)) for t in tasks]
+			_OUTSTANDING.append(self)
+			while len(_OUTSTANDING) > MAX_OUTSTANDING:
+				_OUTSTANDING.pop(0).result()
+
+	def collect(self, results):
+		dev, n = [], 0
+		for d, k in results:
+			dev = dev + d
+			n += k
+		dev.sort(key=lambda d: d['idx'])
+		self.done = (dev[:4], n, None)
+
+	def result(self):
+		if self.done is None:
+			try:
+				self.collect([h.get(WORKER_TIMEOUT) for h in self.handles])
+			except Exception as exc:
+				self.done = (None, 0, '%s: %s' % (type(exc).__name__, str(exc)[:200]))
+			self.handles = []
+		return self.done
+
+
+def extra(o):
+	"""the observation of the fragmented and sequential feeds, waited for when first looked at (coq_case is called for every case before any
+	observation is written anywhere)"""
+	x = o.get('extra')
+	if x is not None and isinstance(x.get('deviations'), Pending):
+		x['deviations'], x['n_deviations'], err = x['deviations'].result()
+		if err:
+			x['error'] = err
+	return x
+
+
+def framed(data):
+	"""does the head of the composed message carry a Content-Length or Transfer-Encoding field?"""
+	head = data.split(b'\r\n\r\n')[0].lower()
+	return b'\r\ncontent-length:' in head or b'\r\ntransfer-encoding:' in head
+
+
+COQ_PER_OCTET_MAX, COQ_PER_OCTET_SHARE = 200, 4   # wires up to this length, one in so many: the octet-by-octet run is also replayed by the parser model inside Coq
+COQ_SEQ_MAX, COQ_SEQ_SHARE = 1200, 3             # ... and the run of three messages (chunked, the case's, Content-Length) on one machine
+
+
+def observe_extra(c, kind, data, alone):
+	"""(a) and (b) on the real opposite machine; the observation keeps the counts and the first feeds that did NOT deliver what the single call delivered"""
+	want = delivery(alone)
+	x = {}
+	feeds = []
+	# (a) fragmentations of the one message
+	mc = multi_cuts(data)
+	if mc:
+		feeds.append(('fed in %d calls (%s)' % (len(mc) + 1, 'octet by octet' if len(mc) == len(data) - 1 else 'octet by octet around every CR / LF, blocks elsewhere'), data, mc, want))
+	tc = two_call_cuts(data)
+	x['two_call_cuts'] = len(tc)
+	x['many_call_run'] = len(mc) + 1
+	# (b) several messages on one machine
+	pch, dch = primer(c['k'], True)
+	pcl, dcl = primer(c['k'], False)
+
+	def seq(label, parts, ds, per_octet=False):
+		"""the messages `parts` (each with its delivery when parsed alone, `ds`), one call per element of `parts` (or per octet);
+		expected: all the messages in order, as long as every one is complete and error-free"""
+		exp = {'msgs': [], 'err': None, 'started': False, 'left': ''}
+		for d in ds:
+			exp['msgs'] = exp['msgs'] + d['msgs']
+			if d['err'] is not None or d['started'] or d['left']:
+				exp.update(err=d['err'], started=d['started'], left=d['left'])
+				break
+		octets = b''.join(parts)
+		cuts, pos = [], 0
+		for part in parts[:-1]:
+			pos += len(part)
+			cuts.append(pos)
+		feeds.append((label, octets, list(range(1, len(octets))) if per_octet else cuts, exp))
+	clean = want['err'] is None and not want['started'] and not want['left']
+	seq('after a chunked message on the same machine', [pch, data], [dch, want])
+	seq('after a Content-Length message on the same machine', [pcl, data], [dcl, want])
+	seq('after both kinds of message, all octets in one call', [pcl + pch + data], [dcl, dch, want])
+	if clean:
+		seq('twice in a row on the same machine', [data, data], [want, want])
+		seq('between messages of the other framing', [pch, data, pcl, data, pch], [dch, want, dcl, want, dch])
+		# octets that follow, in the same call, a request without Content-Length and without chunked framing are taken for a body without
+		# length (411: finding D13 of C01/C02, the buffer peek): such a message is followed by others only in later calls
+		if kind == 'client' or framed(data):
+			seq('twice in a row and then a Content-Length and a chunked message, all octets in one call', [data + data + pcl + pch], [want, want, dcl, dch])
+		else:
+			seq('twice in a row and then a Content-Length and a chunked message, three calls', [data, data, pcl + pch], [want, want, dcl, dch])
+		if len(data) * 2 + len(pch) + len(pcl) <= PER_OCTET_MAX:
+			seq('four messages on one machine, octet by octet', [pch, data, pcl, data], [dch, want, dcl, want], per_octet=True)
+	x['feeds'] = len(feeds) + len(tc)
+	x['deviations'] = Pending(kind, feeds, data, tc, want)
+	# the runs that also go through the parser model inside Coq, with the callee tables of that very run; a fixed share of the wires (the
+	# feeds above see every wire): cost of the Coq literals
+	pick = int(hashlib.sha1(data).hexdigest()[:6], 16)
+	if len(data) <= COQ_SEQ_MAX and pick % COQ_SEQ_SHARE == 0:
+		frags = [pch, data, pcl] if clean else [pch, data]
+		x['seq'] = parser_rec.run(kind, frags)
+		x['seq']['frags'] = [f.hex() for f in frags]
+	if len(data) <= COQ_PER_OCTET_MAX and (pick // 64) % COQ_PER_OCTET_SHARE == 0:
+		frags = [data[i:i + 1] for i in range(len(data))]
+		x['per_octet'] = parser_rec.run(kind, frags)
+		x['per_octet']['frags'] = [f.hex() for f in frags]
+	return x
+
+
 def observe(c):
 	case = dict(c)
 	case['ops'] = _ops(c)
@@ -187,11 +456,14 @@ def observe(c):
 	if steps and 'out' in steps[-1]:
 		data = bytes.fromhex(steps[-1]['out'])
 		kind = 'server' if c['k'] == 'req' else 'client'
+		primer(c['k'], True), primer(c['k'], False)   # composed (and their composer tables recorded and dropped) before the case's own parse is recorded
 		o['parse'] = parser_rec.run(kind, [data])
+		o['extra'] = observe_extra(c, kind, data, o['parse'])
 	return o
 
 
 def coq_case(c, o):
+	extra(o)
 	if 'harness_exception' in o or 'parse' not in o:
 		return None
 	case = dict(c)
@@ -209,8 +481,14 @@ def coq_case(c, o):
 	final = '(@None (bytes * bool))'
 	if 'final' in p:
 		final = '(Some (%s, %s))' % (X(bytes.fromhex(p['final']['buf'])), B(p['final']['started']))
-	return 'CRound %s (%s %s) %s %s %s %s %s' % (cr.coq_tables(o), 'MReq' if c['k'] == 'req' else 'MResp', cr.coq_message(case, o), ops,
-		X(bytes.fromhex(o['ops'][-1]['out'])), parser_rec.coq_tables(p['tables']), L(calls, 'Corr.Parser.callobs'), final)
+	out = ['XR (CRound %s (%s %s) %s %s %s %s %s)' % (cr.coq_tables(o), 'MReq' if c['k'] == 'req' else 'MResp', cr.coq_message(case, o), ops,
+		X(bytes.fromhex(o['ops'][-1]['out'])), parser_rec.coq_tables(p['tables']), L(calls, 'Corr.Parser.callobs'), final)]
+	# the parser model on the real octets: octet by octet, and several messages on one machine (short wires; the oracle does this for every wire)
+	for key in ('per_octet', 'seq'):
+		run = o.get('extra', {}).get(key)
+		if run is not None:
+			out.append('XP (%s)' % parser_rec.coq_parse_case('server' if c['k'] == 'req' else 'client', [bytes.fromhex(f) for f in run['frags']], run))
+	return out
 
 
 # ---------------------------------------------------------------- the property, stated on the implementation
@@ -290,10 +568,19 @@ def oracle(c, o):
 				return 'header field %s: value %r cannot be read as text: %s' % (name, raw, type(exc).__name__)
 			if text != raw.decode('ISO8859-1'):
 				return 'header field %s: the text %r set by the caller is read back as %r' % (name, raw.decode('ISO8859-1'), text)
+	# the same single delivery however the octets are cut into calls, and whatever the machine has parsed before
+	x = extra(o)
+	if x is None or x['deviations'] is None:
+		return 'the fragmented and sequential feeds were not observed: %s' % ((x or {}).get('error'),)
+	if x['deviations']:
+		d = x['deviations'][0]
+		return 'delivery depends on the feed: %s: %r instead of %r (%d of %d feeds differ)' % (d['how'], d['got'], d['want'], x['n_deviations'], x['feeds'])
 	return None
 
 
 def classify(c, o, fail):
+	if fail.startswith('delivery depends on the feed') or fail.startswith('the fragmented and sequential feeds'):
+		return None   # the single call delivered the message as required: no known finding is about how the octets are cut or what came before
 	content = cr.body_content(c['body'])
 	coding = c.get('coding')
 	chunked = bool(c.get('chunked')) or (c['k'] == 'resp' and coding in ('gzip', 'deflate'))
@@ -313,6 +600,7 @@ def classify(c, o, fail):
 
 
 def nontrivial(c, o):
+	extra(o)
 	if 'parse' not in o:
 		return ('no-output', c['k'])
 	calls = o['parse']['calls']
